@@ -3,12 +3,66 @@ C16 — reference transactions implement compare-and-swap atomically. The execut
 shared core GixModel.Model.C17Core (prepare/commit on the concrete store {loose, packed, locks});
 the line protocol is the history protocol of GixModel.Model.C17:
 
-  hist <op> ; <op> ; …   with op = txn … | gitupdate-ref … | gitpack-refs … | lock … | unlock …
+  hist <op> ; <op> ; …    with op = txn … | gitupdate-ref … | gitpack-refs … | lock … | unlock …
+
+and, answered by the extended model GixModel.Model.C16Fs (directories and reflogs),
+
+  histx <txn> ; <txn> ; … transactions only; nested names may conflict; the dump also shows the
+                          reflogs: ` logs=<name>@<old>><new>,…;<name>@…`
 -/
 import GixModel.Model.C17
+import GixModel.Model.C16Fs
 
 namespace GixModel.C16
+open GixModel.C17 GixModel.C16Fs
 
-def handle (args : List String) : String := GixModel.C17.handle args
+def fmtOidX : Oid → String
+  | 0 => "0"
+  | o => stringOfOid o
+
+def dumpX (SX : StoreX) : String :=
+  let parts := nameSpace.filterMap fun s =>
+    match lookup SX.logs (nameOfString s) with
+    | some ls => some (s ++ "@" ++ String.intercalate "," (ls.map fun l => fmtOidX l.1 ++ ">" ++ fmtOidX l.2))
+    | none => none
+  dump SX.base ++ " logs=" ++ (if parts.isEmpty then "-" else String.intercalate ";" parts)
+
+def fmtErrX : ErrX → String
+  | .core e => fmtErr e
+  | .reflog => "err:c-reflog"
+  | .lockCommit n => "err:c-lock:" ++ stringOfName n
+  | .deleteReflog n => "err:c-dellog:" ++ stringOfName n
+  | .deleteRef n => "err:c-delref:" ++ stringOfName n
+
+def histOpX (SX : StoreX) : List String → Option (String × Option StoreX)
+  | "txn" :: mode :: rf :: pf :: edits => do
+    let mode ← parseMode mode
+    let _ ← parseFail ((rf.dropPrefix? "rf=").map (·.toString) |>.getD "?")
+    let _ ← parseFail ((pf.dropPrefix? "pf=").map (·.toString) |>.getD "?")
+    let edits ← parseEdits edits
+    match runX harnessEnv SX { edits := edits, mode := mode } with
+    | .ok S' => some ("ok#" ++ dumpX S', some S')
+    | .err e S' => some (fmtErrX e ++ "#" ++ dumpX S', some S')
+    | .panic S' => some ("panic#" ++ dumpX S', some S')
+    | .hang => some ("hang", none)
+  | _ => none
+
+def runHistX : StoreX → List (List String) → Option (List String)
+  | _, [] => some []
+  | SX, op :: ops => do
+    let r ← histOpX SX op
+    match r.2 with
+    | none => some [r.1]
+    | some S' =>
+      let rest ← runHistX S' ops
+      some (r.1 :: rest)
+
+def handle (args : List String) : String :=
+  match args with
+  | "histx" :: toks =>
+    match runHistX { base := initialStore } (splitOps toks) with
+    | some obs => String.intercalate " ; " obs
+    | none => "bad-op"
+  | _ => GixModel.C17.handle args
 
 end GixModel.C16
